@@ -8,7 +8,7 @@
 From Coq Require Import List NArith ZArith Bool Ascii String.
 From Qryn Require Import model.GoFloat model.JsonStream proofs.JsonStreamProofs proofs.JsonSpliceProofs
   proofs.GoFloatProofs proofs.JsonNumProofs proofs.JsonSeriesProofs proofs.GoMarshalProofs proofs.GoFloatReadProofs proofs.GoFloatRoundProofs
-  proofs.GoFloatExactProofs proofs.GoFloatShortestProofs proofs.GoFloatMsProofs model.RespOptimizer proofs.RespOptimizerProofs model.JsonPyro proofs.JsonPyroProofs proofs.TraceqlDurationProofs model.TracePb proofs.TracePbProofs.
+  proofs.GoFloatExactProofs proofs.GoFloatShortestProofs proofs.GoFloatMsProofs model.RespOptimizer proofs.RespOptimizerProofs model.JsonPyro proofs.JsonPyroProofs proofs.TraceqlDurationProofs model.TracePb proofs.TracePbProofs proofs.TraceChunkProofs.
 Import ListNotations.
 Open Scope string_scope.
 Open Scope list_scope.
@@ -791,3 +791,24 @@ Theorem trace_pb_model_passes_oracle : forall id order spans,
                   tp_obs := pb_doc order spans |} = false.
 Proof. exact pb_doc_passes_oracle. Qed.
 Print Assumptions trace_pb_model_passes_oracle.
+
+(* round 8: TempoController.Trace (JSON branch) as a sequence of Write calls (proofs/TraceChunkProofs.v): the spans may be
+   handed to the writer in pieces of ANY size (threshold thr; 0 = the code of today, one piece per span); with the comma keyed
+   on "a span was already encoded" what the client reads is always the unchunked body of doc_wellformed_trace_* *)
+Theorem trace_chunking_invisible : forall thr xs,
+  sconcat (trace_writes thr xs) = enc_trace_bytes xs.
+Proof. exact trace_chunked_is_unchunked. Qed.
+Print Assumptions trace_chunking_invisible.
+(* the comma keyed on "the buffer is not empty" (seeded change C15-h) agrees below the threshold ... *)
+Theorem trace_comma_by_buffer_below_threshold : forall thr xs buf,
+  (forall x, In x xs -> x <> "") ->
+  (String.length (buf ++ bytes_loop xs (0 <? String.length buf)%nat) < thr)%nat ->
+  chunk_loop_buf thr xs buf = chunk_loop thr xs (0 <? String.length buf)%nat buf.
+Proof. exact chunk_loop_buf_below. Qed.
+Print Assumptions trace_comma_by_buffer_below_threshold.
+(* ... and loses the comma after every hand-over *)
+Theorem trace_comma_by_buffer_refuted :
+  exists thr xs, sconcat (trace_writes_buf thr xs) <> enc_trace_bytes xs /\
+                 sconcat (trace_writes_buf thr xs) = (trace_hdr ++ "{}{}" ++ trace_ftr)%string.
+Proof. exact trace_chunked_by_buffer_refuted. Qed.
+Print Assumptions trace_comma_by_buffer_refuted.
